@@ -289,7 +289,8 @@ func (ps *peerScore) score(p peer.ID) float64 {
 		var topicScore float64
 
 		// P1: time in Mesh
-		if tstats.inMesh {
+		// (a zero quantum is accepted by non-atomic validation when P1 is left unset; it disables P1)
+		if tstats.inMesh && topicParams.TimeInMeshQuantum != 0 {
 			p1 := float64(tstats.meshTime / topicParams.TimeInMeshQuantum)
 			if p1 > topicParams.TimeInMeshCap {
 				p1 = topicParams.TimeInMeshCap
